@@ -101,6 +101,26 @@ ADDENDA2 = {
 }
 
 
+# waves 12-13: the MIRROR family (two real nodes) and the strengthenings recorded in DESIGN.md section 11
+MIRROR = " A quarter of the runs use the MIRROR family: two real nodes (two spine.DeviceLocal) connected to each other through the simulated transport, each with server and client features, application tasks on both sides (subscribe, bind, read, write through the public API, local updates, an entity that comes and goes, use-case changes) and a link that is dropped on each side at its own moment and set up again (conn.drop, conn.restart); no scripted peer takes part."
+ADDENDA3 = {
+ "C01": ("; the device part of request destinations is present, omitted or another device's; variant mirror-responses (two real nodes: every read / acknowledged message one node handled is answered by exactly one datagram of the other, counters unique per direction)", MIRROR),
+ "C02": ("; delete selectors that name only part of a composite identifier (several matches)", ""),
+ "C04": ("; variant write-races-local-protection: the application write-protects the addressed element while the write is handled - the outcome must be one of the two serial histories, with the matching result", " Variant write-races-local-protection (a quarter of the runs): a local partial update that protects element X runs concurrently with the handling of a remote partial write to X; data and result must equal 'write then protection' (success) or 'protection then write' (error)."),
+ "C05": ("; descriptions of announced features change and discovery reads arrive during the traffic", ""),
+ "C06": ("; variant mirror-tree (two real nodes: the remote view and the use cases either node holds of the other equal what the other's application built, through entity and use-case changes, link drops and reconnects)", MIRROR),
+ "C07": ("; descriptions of announced features change between reads", ""),
+ "C08": ("; delete calls naming another peer's device; a peer that subscribes before answering discovery, loses its connection and returns; variant mirror-replication (two real nodes: a client that subscribed and read holds what the server holds once traffic has drained)", MIRROR),
+ "C09": ("; delete calls naming another peer's device", ""),
+ "C10": ("; a peer whose discovery reply is lost (no device address) is removed with a write pending; variant mirror-teardown (two real nodes: after a link drop nothing of the other node is left in either node's registries, remote devices and client-side bookkeeping)", MIRROR),
+ "C12": ("; variant repeated-counter (the same message counter again on the same connection after the outcome, per-round verdicts)", " Variant repeated-counter: 2-3 rounds of a write with one message counter on one connection, each round with its own verdicts (approve, deny, silent); a round is applied iff every callback approved that round."),
+ "C13": ("; bulk of unanswered requests after many answered ones", ""),
+ "C14": ("; variant mirror-callbacks (two real nodes: every request of a client application whose answer was handled after the registration had returned has its callback invoked exactly once)", MIRROR),
+ "C15": ("; the only peer leaves (the stack unsubscribes its own handler) and returns while events are published; a second core level handler unsubscribes itself inside its handler; deadlock-directed search", ""),
+ "C16": ("; timeouts the announcement cannot express exactly (150 ms, 250 ms, 1250 ms); the gap is bounded by the announced timeout", ""),
+ "C17": ("; descriptions change while peers read the tree; deadlock-directed search with pre-hold (a task is also held back before its first acquisition of a candidate)", ""),
+}
+
 def main():
     all_ids = ["C%02d" % i for i in range(1, 21)]
     checks = []
@@ -112,6 +132,8 @@ def main():
             tech, text = tech + ADDENDA[pid][0], text + ADDENDA[pid][1]
         if pid in ADDENDA2:
             tech, text = tech + ADDENDA2[pid][0], text + ADDENDA2[pid][1]
+        if pid in ADDENDA3:
+            tech, text = tech + ADDENDA3[pid][0], text + ADDENDA3[pid][1]
         checks.append({
             "property_id": pid,
             "quick_cmd": "./check %s quick" % pid,
